@@ -36,13 +36,13 @@ def load_findings(pid: str) -> List[Dict[str, Any]]:
 
 
 def finding_matches(finding: Dict[str, Any], clause: str, features: Dict[str, Any]) -> bool:
-    m = finding.get('matcher', {})
-    if m.get('clause') != clause:
-        return False
-    for k, v in m.get('features', {}).items():
-        if features.get(k) != v:
-            return False
-    return True
+    """A finding lists one matcher, optionally further ones ('also') for other manifestations of the SAME root cause."""
+    for m in [finding.get('matcher', {})] + list(finding.get('also', [])):
+        if m.get('clause') != clause:
+            continue
+        if all(features.get(k) == v for k, v in m.get('features', {}).items()):
+            return True
+    return False
 
 
 class Acc:
